@@ -283,7 +283,7 @@ fn c19(r: &mut Report) {
         diff::Prim::Oneshot,
         diff::Prim::Watch,
     ];
-    let per_prim = if r.quick() { 1_500 } else { 30_000 };
+    let per_prim = if r.quick() { 8_000 } else { 60_000 };
     let mut scripts: Vec<(diff::Prim, Vec<diff::Op>)> = vec![];
     for p in &prims {
         for _ in 0..per_prim {
@@ -305,7 +305,7 @@ fn c19(r: &mut Report) {
     }
     let n_scripts = scripts.len();
     let enum_cap = if r.quick() { 10_000 } else { 200_000 };
-    let sample_iters = if r.quick() { 800 } else { 20_000 };
+    let sample_iters = if r.quick() { 2_000 } else { 20_000 };
     let accs = oracle::parallel(n_scripts + sitems.len(), oracle::workers(), |i, acc| {
         if i < n_scripts {
             let (p, s) = &scripts[i];
